@@ -54,7 +54,8 @@ pub fn rand_value(rng: &mut Rng, depth: usize) -> B {
     }
     4 => {
       let n = rng.below(4);
-      B::sorted((0..n).map(|_| (rand_text(rng, true).into_bytes(), rand_value(rng, depth - 1))).collect())
+      // keys are byte strings: mostly text, sometimes not valid UTF-8
+      B::sorted((0..n).map(|_| (if rng.chance(1, 4) { let k = rng.range(1, 5) as usize; let mut b = rng.bytes(k); b[0] |= 0x80; b } else { rand_text(rng, true).into_bytes() }, rand_value(rng, depth - 1))).collect())
     }
     _ => {
       // a deep chain
@@ -183,7 +184,9 @@ pub fn accepted(rng: &mut Rng, o: &Opts) -> (B, Vec<u8>) {
     top.push((b"announce".to_vec(), B::s(&rand_url(rng))));
   }
   if rng.chance(1, 3) {
-    let tiers = (0..rng.below(4)).map(|_| B::List((0..rng.below(3)).map(|_| B::s(&rand_url(rng))).collect())).collect();
+    // mostly a few tiers; sometimes more than nine (labels `Tier 10`, `Tier 11` sort before `Tier 2` as text)
+    let n_tiers = if rng.chance(1, 6) { rng.range(10, 13) } else { rng.below(4) };
+    let tiers = (0..n_tiers).map(|t| B::List((0..rng.below(3)).map(|_| B::s(&format!("{}#{t}", rand_url(rng)))).collect())).collect();
     top.push((b"announce-list".to_vec(), B::List(tiers)));
   }
   if rng.chance(1, 3) {
@@ -193,7 +196,8 @@ pub fn accepted(rng: &mut Rng, o: &Opts) -> (B, Vec<u8>) {
     top.push((b"created by".to_vec(), B::s(&rand_text(rng, o.odd_strings))));
   }
   if rng.chance(1, 3) {
-    top.push((b"creation date".to_vec(), B::Int(*rng.pick(&[0i128, 1, 1_600_000_000, 4_102_444_800, 253_402_300_799]))));
+    // (the last three do not fit a signed 64-bit integer: the typed reader takes them, a generic bencode reader may not)
+    top.push((b"creation date".to_vec(), B::Int(*rng.pick(&[0i128, 1, 1_600_000_000, 4_102_444_800, 253_402_300_799, 1 << 62, (1 << 63) - 1, 1 << 63, (1 << 63) + 12345, (1 << 64) - 1]))));
   }
   if rng.chance(1, 3) {
     top.push((b"encoding".to_vec(), B::s("UTF-8")));
